@@ -467,6 +467,35 @@ ALL_REPORTS = ["-L", "-u", "-C", "-s", "-I", "-g", "MAP", "-P", "-M", "-x", "-x"
 _MACDEF = re.compile(rb"^([A-Za-z_.$@][\w.$@]*):?[ \t]+macro\b", re.I | re.M)
 
 
+def described_work(src):
+    """Lines the source asks for once its REPT nests are written out (constant counts only; IRP lists count their
+    arguments).  A lower bound of the work the input describes."""
+    stack = []
+    total = 0
+    for ln in src.lower().split(b"\n"):
+        f = ln.replace(b",", b" , ").split()
+        ops = f[:2]
+        if b"endm" in ops:
+            if stack:
+                stack.pop()
+            continue
+        mult = 1
+        for m in stack:
+            mult *= m
+        total += mult
+        if b"rept" in ops:
+            i = f.index(b"rept")
+            try:
+                stack.append(max(1, int(f[i + 1])) if len(f) > i + 1 else 1)
+            except ValueError:
+                stack.append(1)
+        elif any(o in (b"irp", b"irpn") for o in ops):
+            stack.append(max(1, f.count(b",")))
+        elif any(o in (b"irpc", b"macro", b"while") for o in ops):
+            stack.append(1)
+    return total
+
+
 def may_not_terminate(src):
     """The property claims termination only for inputs without WHILE and without self-recursive macros: a source that
     has WHILE, or a macro whose body invokes a macro defined in the same text, is outside that claim."""
@@ -752,6 +781,13 @@ def run_one(sim, acc, prog, sc, origin, kind, nontrivial_off=None):
         if oracle.classify(prog, r2, san2) != cls:
             acc.bump(acc.probes, "cpu_limit_not_reproduced")
             r, san, cls = r2, san2, oracle.classify(prog, r2, san2)
+    if cls == "asl/hang/cpu-limit":
+        # time proportional to the work described: a source whose written-out REPT nests exceed the line budget runs that
+        # long legitimately; with per-line bookkeeping that grows (-g) the CPU backstop can come before the line budget
+        work = sum(described_work(v if isinstance(v, bytes) else v.encode("latin1")) for k, v in sc.get("disk", {}).items() if k.endswith(".asm"))
+        if work >= LINE_BUDGET:
+            acc.bump(acc.probes, "cpu_limit_within_described_work")
+            cls = None
     if cls == "asl/hang/line-budget":
         cls = refine_pass_hang(sim, prog, sc, cls)
     if cls is None and prog == "asl" and r.kind == 0:
@@ -1284,6 +1320,21 @@ def _run_case(sim, case, acc):
                     run_one(sim, acc, prog, sc_tool(prog, tail + [opt, big], ref), "E15 %s %s with an argument of %d characters" % (prog, opt, ln), "long-argument")
                 run_one(sim, acc, prog, sc_tool(prog, [big] + tail[1:], ref, extra={"/w/" + big + ".p": ref}), "E15 %s file name of %d characters" % (prog, ln), "long-argument")
                 run_one(sim, acc, prog, sc_tool(prog, tail[:1] + [big], ref), "E15 %s target name of %d characters" % (prog, ln), "long-argument")
+        # the disassembler: many arguments, many symbols and entry addresses, long arguments
+        img = bytes(range(64))
+        for n in (100, 254, 255, 256, 257, 300, 1000):
+            base = ["-cpu", "z80", "-binfile", "/w/i.bin@0"]
+            for argv in (base + ["-entryaddress", "0"] * (n // 2), base + ["-symbol", "s=1"] * (n // 2),
+                         base + sum((["-symbol", "s%d=%d" % (i, i)] for i in range(n // 2)), []),
+                         base + sum((["-entryaddress", "%d" % (i & 63)] for i in range(n // 2)), []),
+                         ["-cpu", "z80"] + sum((["-binfile", "/w/i.bin@%d" % (64 * i)] for i in range(n // 2)), [])):
+                run_one(sim, acc, "dasl", dict(argv=argv, cwd="/w", disk={"/w/i.bin": img}, env={"LANG": "C"}), "E15 dasl with %d arguments" % len(argv), "many-arguments")
+        for ln in (254, 255, 256, 257, 300, 1100, 5000):
+            big = "a" * ln
+            for opt in ("-cpu", "-binfile", "-hexfile", "-entryaddress", "-symbol"):
+                for val in (big, big + "=1", "1=" + big, "/w/" + big + "@0", "/w/i.bin@" + "1" * ln, "(0,2)," + big):
+                    run_one(sim, acc, "dasl", dict(argv=["-cpu", "z80", "-binfile", "/w/i.bin@0", opt, val], cwd="/w", disk={"/w/i.bin": img}, env={"LANG": "C"}),
+                            "E15 dasl %s with an argument of %d characters" % (opt, len(val)), "long-argument")
         acc.sample = {"space": "E15"}
     elif g == "secdecl":
         rng = Rng(case["seed"])
